@@ -32,8 +32,16 @@ def plan(tier, seed):
                 if quick and init == 5 and factor == 1:
                     continue
                 cfgs.append(dict(depth=3 if quick else 4, factor=factor, init=init, strict=strict, syncsteps=3 if quick else 4))
+    # a microsecond-scale factor (tolerances that are absolute, not relative to the factor, show here) and factor 0
+    cfgs.append(dict(depth=3, factor=2.0 ** -12, init=0, strict=1, syncsteps=3))
+    cfgs.append(dict(depth=3, factor=0, init=0, strict=1, syncsteps=3))
+    cfgs.append(dict(depth=2 if quick else 3, factor=0, init=5, strict=0, syncsteps=2))
+    # run(until=T) segments of an environment that is (or has become) idle: the pacing applies to the stop as well
+    for factor in (0.5, 2):
+        for strict in (1, 0):
+            cfgs.append(dict(idle=1, factor=factor, init=0, strict=strict))
     return {"cfgs": cfgs, "budget": 2,
-            "bound": "D<=%d, clock deviation budget 2" % (3 if quick else 4)}
+            "bound": "D<=%d, clock deviation budget 2; idle environments: 3 run(until) segments" % (3 if quick else 4)}
 
 
 class Rec:
@@ -48,7 +56,64 @@ class Rec:
         return c
 
 
+def exec_idle(ch, cfg):
+    """run(until=T) on an environment with nothing (left) to do: returns with now == T, not before the wall clock reached
+    the instant of T; strict mode raises exactly when the stop itself is more than `factor` late"""
+    res = Result()
+    f, init, strict = cfg["factor"], cfg["init"], bool(cfg["strict"])
+    clock = {"wall": 100.0, "calls": 0}
+
+    def mono():
+        clock["calls"] += 1
+        return clock["wall"]
+
+    def sleep(d):
+        clock["calls"] += 1
+        opts = [d, d / 2, d + f / 4]
+        clock["wall"] += opts[ch.choose(3, lambda c: "sleep(%r) returns after %r" % (d, opts[c]))]
+    saved = (rt.monotonic, rt.sleep, time.monotonic, time.sleep, time.perf_counter, time.time)
+    rt.monotonic, rt.sleep, time.monotonic, time.sleep, time.perf_counter, time.time = mono, sleep, mono, sleep, mono, mono
+    log = []
+    try:
+        env = RealtimeEnvironment(initial_time=init, factor=f, strict=strict)
+        start = clock["wall"]
+        with_proc = ch.choose(2, lambda c: "one process with a single timeout(1)" if c else "no process at all", free=True)
+        if with_proc:
+            def p():
+                yield env.timeout(1)
+            env.process(p())
+        target = init
+        for seg in range(3):
+            step = [1, 2][ch.choose(2, lambda c: "segment %d: run(until=now+%d)" % (seg, [1, 2][c]), free=True)]
+            late = [0, f / 2, 2 * f][ch.choose(3, lambda c: "wall time consumed before the segment: %r" % [0, f / 2, 2 * f][c])]
+            clock["wall"] += late
+            target += step
+            res.ev("C20.notearly"); res.ev("C20.strict")
+            try:
+                env.run(until=target)
+            except RuntimeError as e:
+                log.append(("raised", target))
+                lag = clock["wall"] - (start + (env.peek() - init) * f) if env.peek() < INF else None
+                if not strict or not str(e).startswith("Simulation too slow") or (lag is not None and not lag > f):
+                    res.bad("C20.strict", "idle:raised-%s" % ("in-non-strict-mode" if not strict else "although-lag<=factor"), "segment to %r: %s" % (target, str(e)[:60]))
+                break
+            log.append((env.now, clock["wall"]))
+            if env.now != target:
+                res.bad("C20.same", "idle:run-until-returned-at-another-instant", "run(until=%r) returned at %r" % (target, env.now))
+                break
+            if clock["wall"] < start + (target - init) * f:
+                res.bad("C20.notearly", "idle:run-until-returned-ahead-of-the-wall-clock", "sim t=%r reached at wall %r, not before %r" % (target, clock["wall"], start + (target - init) * f))
+                break
+    finally:
+        rt.monotonic, rt.sleep, time.monotonic, time.sleep, time.perf_counter, time.time = saved
+    res.digest = (tuple(ch.choices), tuple(log))
+    res.nontrivial = True
+    return res
+
+
 def execute(ch, cfg):
+    if cfg.get("idle"):
+        return exec_idle(ch, cfg)
     res = Result()
     f, init, strict = cfg["factor"], cfg["init"], bool(cfg["strict"])
     clock = {"wall": 100.0, "calls": 0}
